@@ -34,7 +34,7 @@ ASSUMPTIONS = [
     "django mode + `only`: visibility of tag-position variables in fill content is a wildcard",
     "iterating / passing on slot-data dicts and slot references is outside the domain (case skipped)",
 ]
-BOUNDS = {"quick": {"programs": 4800}, "thorough": {"programs": 60000}}
+BOUNDS = {"quick": {"programs": 4800}, "thorough": {"programs": 200000}}
 CFG = {"naming": "pool", "pool": ["x", "y", "z"], "probes": True, "errors": False, "isfilled": False, "max_nodes": 4, "extra_probe": "u"}
 
 _PROBE_RE = re.compile(r"\[p(\d+):([^\]\[]*)\]")
@@ -103,7 +103,7 @@ def check_program(case, col=None):
 
 def plan(tier, seed, scale=1.0):
     n = max(16, int(BOUNDS[tier]["programs"] * scale))
-    shards = 16 if tier == "quick" else 32
+    shards = 16 if tier == "quick" else 128
     return [{"kind": "main", "n": n // shards, "seed": derive_seed(seed, "c03", sh)} for sh in range(shards)]
 
 
